@@ -108,7 +108,16 @@ func adminCall(cl *s3c.Client, o op, key string) (result, error) {
 		return result{Err: "other: " + r.String()}, nil
 	case "probe":
 		u := cl.As(s3c.Creds{Access: key, Secret: o.Secret})
-		r, err := u.Call("GET", "/", nil, nil, nil)
+		var r *s3c.Resp
+		var err error
+		if o.Pre {
+			req := &s3c.Req{Method: "GET", Path: "/"}
+			opt := u.Opt()
+			opt.Presign, opt.Expires = true, 300
+			r, err = u.SendWith(req, opt)
+		} else {
+			r, err = u.Call("GET", "/", nil, nil, nil)
+		}
 		if err != nil {
 			return result{}, err
 		}
@@ -221,6 +230,7 @@ func opGenE() *rapid.Generator[op] {
 		if o.Kind == "get" && rapid.IntRange(0, 2).Draw(t, "as_probe") != 0 {
 			o.Kind = "probe"
 			o.Secret = rapid.SampledFrom([]string{"s1", "s2", "s3", "s4", "s5"}).Draw(t, "probe_secret")
+			o.Pre = rapid.Bool().Draw(t, "probe_presigned")
 		}
 		return o
 	})
